@@ -51,9 +51,12 @@ theorem stopSt_shape (cfg : Cfg) (st : St) : (stopSt cfg st).shape = st.shape :=
 theorem stopSt_hooks (cfg : Cfg) (st : St) : (stopSt cfg st).hooks = st.hooks := by
   unfold stopSt; cases cfg.kind <;> rfl
 
+theorem stopSt_started (cfg : Cfg) (st : St) : (stopSt cfg st).started = false := by
+  unfold stopSt; cases cfg.kind <;> rfl
+
 /-- `doStop` when nothing fails and the display is started. -/
 theorem doStop_started (cfg : Cfg) (st : St) (hst : st.started = true) (hh : st.hooks > 0) :
-    ∃ st1 : St, st1.shape = st.shape ∧ st1.hooks = st.hooks ∧
+    ∃ st1 : St, st1.shape = st.shape ∧ st1.hooks = st.hooks ∧ st1.started = false ∧
       HookedRes cfg st1 [] (doRefresh cfg noFault st1) ∧
       stopFrame cfg st = shown cfg (doRefresh cfg noFault st1).st ∧
       doStop cfg noFault st =
@@ -62,7 +65,7 @@ theorem doStop_started (cfg : Cfg) (st : St) (hst : st.started = true) (hh : st.
             (if cfg.transient then restoreCursor (cleanup (doRefresh cfg noFault st1).st).shape else []) } := by
   have hh1 : (stopSt cfg st).hooks > 0 := by rw [stopSt_hooks]; exact hh
   have hres := (doRefresh_noFault cfg (stopSt cfg st)).1 hh1
-  refine ⟨stopSt cfg st, stopSt_shape cfg st, stopSt_hooks cfg st, hres, rfl, ?_⟩
+  refine ⟨stopSt cfg st, stopSt_shape cfg st, stopSt_hooks cfg st, stopSt_started cfg st, hres, rfl, ?_⟩
   simp only [doStop, hst, Bool.not_true, Bool.false_eq_true, if_false, stopTail]
   rw [hres.err]
 
@@ -75,7 +78,7 @@ theorem good_stop {cfg : Cfg} {st : St} {v : View} {s : Screen} (g : Good cfg st
       (st.started = true → s'.visible = true) := by
   by_cases hst : st.started = true
   · have hh : st.hooks > 0 := by have := g.hooks; rw [hst] at this; simp at this; omega
-    obtain ⟨st1, hs1, hh1, hres, eframe, estop⟩ := doStop_started cfg st hst hh
+    obtain ⟨st1, hs1, hh1, _, hres, eframe, estop⟩ := doStop_started cfg st hst hh
     rw [estop]
     rw [eframe] at hfit
     simp only [cleanup_shape]
@@ -162,5 +165,128 @@ theorem good_stop {cfg : Cfg} {st : St} {v : View} {s : Screen} (g : Good cfg st
     refine ⟨s, Run.nil _ _ _, ?_, fun h => by rw [hst'] at h; cases h⟩
     simp only [viewStop, hst', Bool.false_eq_true, if_false]
     exact shown_rows hs
+
+theorem disableRedirect_started (st : St) : (disableRedirect st).started = st.started := by
+  obtain ⟨_, _, _, _, _, _, _, _, rso, rse, _, _, _⟩ := st
+  cases rso <;> cases rse <;> rfl
+
+theorem atBlank_of_eq {s s' : Screen} {P : List Line} {m : Nat} (h : AtBlank s P m)
+    (h1 : s'.rows = s.rows) (h2 : s'.row = s.row) (h3 : s'.col = 0) : AtBlank s' P m :=
+  ⟨by rw [h1]; exact h.rows, by rw [h2]; exact h.row, h3, h.pos⟩
+
+/-- Where an effective `stop` lands: on a blank zone right below the finished output (printed lines plus
+what the display leaves, `leftBy`), all of it within the screen, cursor visible. -/
+theorem stop_landing {cfg : Cfg} {st : St} {v : View} {s : Screen} (hH : 1 ≤ cfg.height) (g : Good cfg st v s)
+    (hst : st.started = true)
+    (hfit : cfg.transient = true → (stopFrame cfg st).length + 1 ≤ cfg.height) :
+    ∃ s' m, Run cfg.height v.printed.length s (doStop cfg noFault st).out s' ∧
+      AtBlank s' (v.printed ++ leftBy cfg (stopFrame cfg st)) m ∧ m ≤ cfg.height ∧ s'.visible = true ∧
+      (doStop cfg noFault st).st.started = false ∧ (doStop cfg noFault st).st.hooks = 0 ∧
+      (cfg.resetShape = true → (doStop cfg noFault st).st.shape = none) := by
+  have hh : st.hooks > 0 := by have := g.hooks; rw [hst] at this; simp at this; omega
+  have hh1' : st.hooks = 1 := by have := g.hooks; rw [hst] at this; simpa using this
+  obtain ⟨st1, hs1, hh1, hst1, hres, eframe, estop⟩ := doStop_started cfg st hst hh
+  rw [estop]
+  rw [eframe] at hfit ⊢
+  simp only [cleanup_shape]
+  -- control fields of the final state
+  have hfin : (resetSt cfg (cleanup (doRefresh cfg noFault st1).st)).hooks = 0 ∧
+      (cfg.resetShape = true → (resetSt cfg (cleanup (doRefresh cfg noFault st1).st)).shape = none) := by
+    constructor
+    · have : (cleanup (doRefresh cfg noFault st1).st).hooks = 0 := by
+        show (doRefresh cfg noFault st1).st.hooks - 1 = 0
+        rw [hres.hooks, hh1, hh1']
+      unfold resetSt; split <;> exact this
+    · intro hr; unfold resetSt; simp [hr]
+  have hfinS : (resetSt cfg (cleanup (doRefresh cfg noFault st1).st)).started = false := by
+    have hc : (cleanup (doRefresh cfg noFault st1).st).started = (doRefresh cfg noFault st1).st.started := by
+      show (disableRedirect (doRefresh cfg noFault st1).st).started = _
+      exact disableRedirect_started _
+    have hs : (resetSt cfg (cleanup (doRefresh cfg noFault st1).st)).started = (cleanup (doRefresh cfg noFault st1).st).started := by
+      unfold resetSt; split <;> rfl
+    rw [hs, hc, hres.started, hst1]
+  generalize hr : doRefresh cfg noFault st1 = r at hres hfit hfin hfinS ⊢
+  obtain ⟨s1, k1, hrun1, hs1', hk1, hv1⟩ := hooked_screen (P := v.printed) (F := v.frame) g.shown (by rw [hs1]; exact g.shape) hres
+  simp only [List.append_nil] at hs1'
+  have hrow1 := shown_row_ge hs1'
+  obtain ⟨s2, hs2⟩ : ∃ s2, s2 = Screen.step cfg.height s1 .lf := ⟨_, rfl⟩
+  have hb2 : AtBlank s2 (v.printed ++ region (shown cfg r.st)) (max k1 1) := by
+    rw [hs2]; exact shown_lf (H := cfg.height) hs1'
+  obtain ⟨s3, hs3⟩ : ∃ s3, s3 = Screen.step cfg.height s2 .showCursor := ⟨_, rfl⟩
+  have hb3 : AtBlank s3 (v.printed ++ region (shown cfg r.st)) (max k1 1) :=
+    atBlank_of_eq hb2 (by rw [hs3]; rfl) (by rw [hs3]; rfl) (by rw [hs3]; exact hb2.col)
+  have hvis3 : s3.visible = true := by rw [hs3]; rfl
+  have hrun2 : Run cfg.height v.printed.length s (r.out ++ [.lf, .showCursor]) s3 := by
+    rw [hs3, hs2]
+    refine Run.append hrun1 (Run.cons ?_ (Run.one ?_))
+    · simp [Screen.step]; omega
+    · simp [Screen.step]; omega
+  have hm3 : max k1 1 ≤ cfg.height := by
+    have := region_length_pos (shown cfg r.st); omega
+  by_cases htr : cfg.transient = true
+  · have hF := hfit htr
+    simp only [htr, if_true, leftBy]
+    cases hshape : r.st.shape with
+    | none =>
+      have hF0 : shown cfg r.st = [] := by have := hres.shape; rw [hshape] at this; exact this
+      refine ⟨s3, max k1 1, by simpa [restoreCursor] using hrun2, ?_, hm3, hvis3, hfinS, hfin.1, hfin.2⟩
+      rw [hF0] at hb3 ⊢; simpa [region] using hb3
+    | some wh =>
+      obtain ⟨w, h⟩ := wh
+      have hh' : h = (shown cfg r.st).length := by have := hres.shape; rw [hshape] at this; exact this
+      subst hh'
+      obtain ⟨s4, hs4⟩ : ∃ s4, s4 = Screen.step cfg.height s3 .cr := ⟨_, rfl⟩
+      have hb4 : AtBlank s4 (v.printed ++ region (shown cfg r.st)) (max k1 1) :=
+        atBlank_of_eq hb3 (by rw [hs4]; rfl) (by rw [hs4]; rfl) (by rw [hs4]; rfl)
+      have hvis4 : s4.visible = true := by rw [hs4]; exact hvis3
+      have hrun4 : Run cfg.height v.printed.length s (r.out ++ [.lf, .showCursor] ++ [.cr]) s4 := by
+        refine Run.append hrun2 ?_
+        rw [hs4]; refine Run.one ?_
+        show v.printed.length ≤ s3.row
+        rw [hb3.row]; simp
+      cases hF1 : shown cfg r.st with
+      | nil =>
+        refine ⟨s4, max k1 1, ?_, ?_, hm3, hvis4, hfinS, hfin.1, hfin.2⟩
+        · simpa [restoreCursor, hF1, eraseUp] using hrun4
+        · rw [hF1] at hb4; simpa [region] using hb4
+      | cons l rest =>
+        rw [hF1] at hb4 hF hk1
+        simp only [region] at hb4 hk1
+        obtain ⟨s', hrun5, hb5, hv5⟩ := erase_up (H := cfg.height) v.printed (l :: rest).length (l :: rest)
+          s4 (max k1 1) rfl (by rw [hb4.rows]) (by rw [hb4.row, List.length_append])
+          hb4.col (by omega) (by simp at hF hk1 ⊢; omega)
+        refine ⟨s', (l :: rest).length + max k1 1, ?_, by simpa using hb5, by simp at hF hk1 ⊢; omega,
+          by rw [hv5]; exact hvis4, hfinS, hfin.1, hfin.2⟩
+        have : r.out ++ [TermOp.lf, TermOp.showCursor] ++ restoreCursor (some (w, (l :: rest).length)) =
+            (r.out ++ [.lf, .showCursor] ++ [.cr]) ++ eraseOps (l :: rest).length := by
+          simp [restoreCursor, eraseUp_eq]
+        rw [this]
+        exact Run.append hrun4 hrun5
+  · have htr' : cfg.transient = false := by simpa using htr
+    simp only [htr', Bool.false_eq_true, if_false, List.append_nil, leftBy]
+    exact ⟨s3, max k1 1, hrun2, hb3, hm3, hvis3, hfinS, hfin.1, hfin.2⟩
+
+/-- An effective `stop` of the repaired code re-establishes the invariant: what the display left is
+finished output, nothing is on display, no shape is recorded — a later `start` begins afresh. -/
+theorem good_stop_good {cfg : Cfg} {st : St} {v : View} {s : Screen} (hH : 1 ≤ cfg.height)
+    (hreset : cfg.resetShape = true) (g : Good cfg st v s)
+    (hfit : st.started = true → cfg.transient = true → (stopFrame cfg st).length + 1 ≤ cfg.height) :
+    ∃ s', Run cfg.height v.printed.length s (doStop cfg noFault st).out s' ∧
+      Good cfg (doStop cfg noFault st).st (viewStopM cfg st v) s' ∧
+      (st.started = true → s'.visible = true) := by
+  by_cases hst : st.started = true
+  · obtain ⟨s', m, hrun, hb, hm, hvis, hns, hnh, hshape⟩ := stop_landing hH g hst (hfit hst)
+    refine ⟨s', hrun, ⟨⟨m - 1, ?_, ?_⟩, ?_, ?_, ?_⟩, fun _ => hvis⟩
+    · simp only [viewStopM, hst, if_true]; exact atBlank_shown_nil hb
+    · simp only [viewStopM, hst, if_true, region]; have := hb.pos; simp; omega
+    · simp only [viewStopM, hst, if_true]; rw [hshape hreset]; rfl
+    · rw [hns, hnh]; rfl
+    · intro _; simp only [viewStopM, hst, if_true]; exact ⟨trivial, hshape hreset⟩
+  · have hst' : st.started = false := by simpa using hst
+    have e : doStop cfg noFault st = { st := st } := by simp [doStop, hst']
+    rw [e]
+    refine ⟨s, Run.nil _ _ _, ?_, fun h => by rw [hst'] at h; cases h⟩
+    simp only [viewStopM, hst', Bool.false_eq_true, if_false]
+    exact g
 
 end RichModel.Live
